@@ -374,6 +374,7 @@ const c09Rule = "rapid-generated valid DSL models (rich identifiers, conditions,
 func c09Run(t *testing.T, prop string, rec *ev.Rec, which int) {
 	harness := false
 	rapid.Check(t, func(rt *rapid.T) {
+		noiseCall(rt) // one case in three is preceded by an unrelated, mostly failing call (see noise_test.go)
 		in, ok := c09Inject(rt)
 		if !ok {
 			return
